@@ -7,7 +7,10 @@ HOOKS = dict(
 )
 
 NOTES = ("All checks go through ./check <id> (translate -> lake build of the property theorems + axiom audit -> cargo build of the "
-         "harness against /repo's working tree -> correspondence suites + property monitors -> decide). See DESIGN.md.")
+         "harness against /repo's working tree -> correspondence suites + property monitors -> decide). For C03, C05, C06, C07, C12, C13 the "
+         "translator also prints the pure functions the property rests on (backoff iterator, frame codec, batch decoder, TopicName::is_valid, "
+         "MessageBatch readiness) as Lean definitions on every run (lean/SeliumModel/Gen/*Fn.lean); theorems prove them equal to the "
+         "hand-written model and state the property about the generated code (Props/C*Gen.lean). See DESIGN.md sections 0 and 3.1.")
 
 META = {
     "C13": dict(
